@@ -204,7 +204,10 @@ class Fleet:
 
         need_c = any(n["runtime"] == "c" for n in self.plan["nodes"])
         need_py = any(n["runtime"] == "py" for n in self.plan["nodes"])
-        rt = cbuild.build_runtime(self.work) if need_c else None
+        cc = self.plan.get("cc")
+        rt = cbuild.build_runtime(self.work, cc) if need_c else None
+        if need_c:
+            self.stats["by_toolchain"] = {"%s %s" % ((cc or {}).get("compiler", "gcc"), (cc or {}).get("opt", "-O1")): 1}
         for i, s in enumerate(self.versions):
             d = os.path.join(self.work, "v%d" % i)
             os.makedirs(d)
@@ -253,7 +256,7 @@ class Fleet:
                 if lib_proto is not None:
                     with _Sys("compile v%d c-lib" % i):
                         extra_c = [os.path.join(d, os.path.basename(p)) for p in render(lib_proto, "c", outdir=d) if p.endswith(".c")]
-                so = cbuild.build_version(self.work, cs[0], hs[0], rt, "v%d" % i, self.roots[i], extra_c)
+                so = cbuild.build_version(self.work, cs[0], hs[0], rt, "v%d" % i, self.roots[i], extra_c, cc)
                 self.c[i] = cbuild.CCodec(so, self.roots[i])
 
     # ------------------------------------------------------------- codecs
